@@ -66,3 +66,16 @@ func sniffMulticast(log *wireLog, ifaceIP string, group net.IP, port int, dir st
 		<-done
 	}, nil
 }
+
+func containsAny(s string, subs ...string) bool {
+	for _, x := range subs {
+		if len(x) > 0 && len(s) >= len(x) {
+			for i := 0; i+len(x) <= len(s); i++ {
+				if s[i:i+len(x)] == x {
+					return true
+				}
+			}
+		}
+	}
+	return false
+}
